@@ -85,6 +85,32 @@ CHECKS["C12"] = dict(
           "(region re-executed with everything but the inputs undefined reproduces the outputs)."),
     note=SEM_NOTE, technique=ACC_TECH, design_ref="DESIGN.md section 4 C12", engine="FortranSem")
 
+CHECKS["C16"] = dict(
+    level="model_checking",
+    text=("SymTab.tla models 4 tables (container > routine > loop scope + a foreign table), symbols with "
+          "class/interface/dependency, 15 public operations each as Success(effect) or Refuse; TLC enumerates "
+          "every reachable abstract state with its complete operation alphabet (plus -simulate histories of "
+          "20 steps); every (state, operation) is applied to REAL SymbolTable objects built in that state and "
+          "the recorded (pre, op, outcome, result, post) tuples are validated by TLC against the property "
+          "relation SymTab!Verdict (RefusalAtomic, UniqueNormalisedNames, TagsPointIntoScope, LookupInnermost, "
+          "FreshNameNoClash, MergeExactlyOnce); the model's own transitions satisfy the same relation."),
+    note=("Trusted: the projection of real tables to the abstract state (c16_world.py). Exhaustive for depth-1 "
+          "histories from 2 rich initial states (quick), sampled beyond. Known defects in findings.d/C16.json."),
+    technique="TLA+ state machine + TLC enumeration replayed on the real objects + TLC trace validation",
+    design_ref="DESIGN.md section 4 C16, F.2", engine="SymTab")
+CHECKS["C18"] = dict(
+    level="model_checking",
+    text=("FreeForm.tla specifies free-form source form (character context, comments, continuation with and "
+          "without leading &, directive sentinels, PSyclone's !& comment continuation) with Join and Tokens; a "
+          "nondeterministic reference wrapper is model-checked (Join o Wrap = identity at token level, MaxLen, "
+          "idempotence) for all lines over a 7-character alphabet; 7k generated lines x 8 limits (all 93 in "
+          "thorough) are wrapped by the real FortLineLength and TLC validates each (input, output, second "
+          "pass, exception) record: MaxLen, SameProgram, Idempotent, NeverFails."),
+    note=("Trusted: token abstraction (blanks between tokens insignificant, case significant); generated "
+          "family, exhaustive only for the tiny-alphabet design model. Known defects in findings.d/C18.json."),
+    technique="TLA+ spec + TLC exhaustive model checking + TLC trace validation of real outputs",
+    design_ref="DESIGN.md section 4 C18, F.8", engine="FreeForm")
+
 NOT_YET = {}
 
 ALL = [f"C{i:02d}" for i in range(1, 30)]
